@@ -169,9 +169,8 @@ class Sut(object):
             if x < 0.2:
                 self.stats["prefix_lists_given_as_tuples"] += 1
                 return tuple(out)
-            if one_shot and x < 0.3:
-                self.stats["prefix_lists_given_as_one_shot_iterators"] += 1
-                return iter(out)
+            # (one-shot iterators were tried here and withdrawn: the statements speak of prefix LISTS, and an
+            # implementation that reads the sequence twice is as good - see DESIGN.md section 11)
         return out
 
     def gid_of(self, prefix):
@@ -184,12 +183,8 @@ class Sut(object):
         return self.rid.get(actual, ("unknown-id", actual))
 
     def store_lengths(self):
-        t = self.t
-        if t.in_memory:
-            return len(t.lru_trie_storage.array), len(t.links_store_storage.array)
-        t.lru_trie_file.flush()
-        t.link_store_file.flush()
-        return os.path.getsize(t.lru_trie_path), os.path.getsize(t.link_store_path)
+        a, b = M.store_bytes(self.t)
+        return len(a), len(b)
 
     # ---------------------------------------------------------- report checks
     def _bind_report(self, report, out, what):
@@ -281,8 +276,7 @@ class Sut(object):
                     text_key = a or (len(e) > 2 and e[2])
                     tl = [self.arg(x, a) for x in ts]
                     if (len(ts) + len(s_)) % 5 == 0:
-                        tl = iter(tl)  # the targets of a source as a one-shot iterator (a generator at the call site)
-                        self.stats["batch_targets_given_as_one_shot_iterators"] += 1
+                        tl = tuple(tl)  # any sequence of targets, not only a list
                     data[self.arg(s_, text_key)] = tl
                 r, order = self._observed(lambda: t.index_batch_crawl(data, yield_frequency=op.get("yf", 50)))
                 named = []
@@ -411,8 +405,13 @@ class Sut(object):
                     refused = True
                 self.stats["refused_requests_checked"] += 1
                 if not refused:
-                    out.append(D(["C04"], "invalid-request-not-refused", op=k, detail_op={x: op[x] for x in op if x != "op"}))
-                    raise Aborted()
+                    # Only "attaching a prefix that is already attached is refused" is stated; what an index does with
+                    # the other ill-formed requests (a delete naming a foreign prefix, removing / moving a prefix with the
+                    # wrong owner) is not: an implementation that accepts them is not judged, the case just ends here
+                    # (the model cannot follow an unspecified effect).
+                    self.stats["ill_formed_request_accepted_case_ended"] += 1
+                    self.dead = True
+                    return out
                 # the attachments must be unchanged: checked against the real index right away
                 got = {}
                 for node, lru in t.webentity_prefix_iter():
@@ -427,7 +426,7 @@ class Sut(object):
                 if op["anchor"] not in m.flags:
                     self.stats["ops_skipped"] += 1
                     return out
-                t.remove_webentity_creation_rule(op["anchor"])
+                t.remove_webentity_creation_rule(self.W(op["anchor"]))
                 m.remove_rule(op["anchor"])
             elif k == "reopen":
                 self.reopen()
@@ -473,7 +472,12 @@ class Sut(object):
                 if p in m.we:
                     self.stats["ops_skipped"] += 1
                     return out
-                t.add_prefix_to_webentity(p, op["id"])
+                try:
+                    t.add_prefix_to_webentity(p, op["id"])
+                except TraphException:
+                    # an index may refuse ids it never issued: unspecified, not judged
+                    self.stats["foreign_id_refused"] += 1
+                    return out
                 gid = -op["id"]
                 m.we[p] = gid
                 self.idmap[gid] = op["id"]
@@ -553,19 +557,25 @@ class Sut(object):
         m = self.m
         use = named
         if order:
-            if {l for l, _ in order} != {l for l, _ in named}:
-                out.append(D(["C01"], "request-inserted-other-pages-than-named", op=what,
-                             missing=sorted({l for l, _ in named} - {l for l, _ in order})[:4],
-                             extra=sorted({l for l, _ in order} - {l for l, _ in named})[:4]))
-                raise Aborted()
+            # The observation ORDERS the model's insertions and never judges: an implementation may treat
+            # known pages without going through the hooked entry point (a read-only fast path, a bulk
+            # loader), so what was seen can be a part of the request only.  Observed pages first, in the
+            # observed order; then the named pages that were not seen, in the named order (the model's
+            # insertion is idempotent); pages seen but not named are ignored here - if the index really
+            # holds a page nobody named, the page audits report it on their own terms.
+            names = {l for l, _ in named}
             crawled = {}
             for l, c in named:
                 crawled[l] = crawled.get(l, False) or c
             seen = set()
             use = []
             for l, c in order:
-                use.append((l, False))  # crawled marks come from the request as named, not from what was observed
-                seen.add(l)
+                if l in names:
+                    use.append((l, False))  # crawled marks come from the request as named, not from what was observed
+                    seen.add(l)
+            if seen != names:
+                self.stats["insertion_order_partly_observed"] += 1
+            use += [(l, False) for l, _ in named if l not in seen]
             # marks a request sets without re-inserting (a batch source met earlier as a target)
             use += [(l, True) for l, c in crawled.items() if c]
             self.stats["insertion_order_observed"] += 1
@@ -592,7 +602,7 @@ class Sut(object):
             except Exception:
                 wrapped = False
         try:
-            r = t.add_webentity_creation_rule(a, RX[op["rule"]])
+            r = t.add_webentity_creation_rule(self.W(a), RX[op["rule"]])
         finally:
             if wrapped:
                 try:
@@ -604,13 +614,16 @@ class Sut(object):
         if under:
             self.stats["rule_installs_on_pages"] += 1
         use = None
-        if wrapped and (order or not under):
-            if sorted(order) != sorted(under):
-                out.append(D(["C06"], "rule-reinsertion-set", anchor=a,
-                             missing=sorted(set(under) - set(order))[:5],
-                             extra_or_repeated=sorted((Counter(order) - Counter(under)).elements())[:5]))
-                raise Aborted()
-            use = order
+        if wrapped and order:
+            # as above: the observed re-insertions order the model, they are not compared with the pages below the anchor
+            u = set(under)
+            seen = []
+            for l in order:
+                if l in u and l not in seen:
+                    seen.append(l)
+            use = seen + [l for l in sorted(under) if l not in set(seen)]
+            if len(seen) != len(under):
+                self.stats["rule_order_partly_observed"] += 1
             self.stats["rule_order_observed"] += 1
         else:
             self.stats["rule_order_unobserved"] += 1
@@ -621,7 +634,7 @@ class Sut(object):
     def reopen(self):
         t, m = self.t, self.m
         t.close()
-        self.closed_sizes = (os.path.getsize(t.lru_trie_path), os.path.getsize(t.link_store_path))
+        self.closed_sizes = (os.path.getsize(os.path.join(self.folder, "lru_trie.dat")), os.path.getsize(os.path.join(self.folder, "link_store.dat")))
         rules = {a: m.rules[a].pattern for a in sorted(m.flags)}
         self.t = Traph(
             folder=self.folder,
@@ -820,8 +833,11 @@ class Sut(object):
             ins[x][s] += c
         pages = list(m.pages)
         if len(pages) > 60:
+            # a sample, but always with the pages that carry the longest link lists (thresholds on one page's chain)
+            top = sorted(pages, key=lambda q: -(sum(outs[q].values()) + sum(ins[q].values())))[:6]
+            top += sorted(pages, key=lambda q: -(len(outs[q]) + len(ins[q])))[:4]
             rng.shuffle(pages)
-            pages = pages[:60]
+            pages = list(dict.fromkeys(top + pages[:60]))
         for p in pages:
             for ib, ii, io in SWITCHES7:
                 got = t.get_page_links(self.Q(p), include_inbound=bool(ib), include_internal=bool(ii), include_outbound=bool(io))
